@@ -245,7 +245,8 @@ def ovcases(draw):
     relation = draw(st.sampled_from(["random", "random", "identical", "disjoint", "lastpixel", "shifted"]))
     fill = draw(st.sampled_from([0.1, 0.4, 0.9]))
     slack = draw(st.sampled_from([0, 0, 3]))       # npk given to the routines beyond the largest label
-    return dict(ns=ns, nf=nf, seed=seed, n1=n1, n2=n2, relation=relation, fill=fill, slack=slack)
+    spread = draw(st.sampled_from(["none", "none", "rows", "cols", "both"]))
+    return dict(ns=ns, nf=nf, seed=seed, n1=n1, n2=n2, relation=relation, fill=fill, slack=slack, spread=spread)
 
 
 def build_ov(case):
@@ -289,6 +290,27 @@ def check_ov(case, rec=None):
         return i.astype(np.uint16), j.astype(np.uint16), L[L > 0].astype(np.int32)
     r1, c1, l1 = coo(L1)
     r2, c2, l2 = coo(L2)
+    # the same patterns on a detector as large as the 16 bit indices allow: rows / columns spread monotonically over
+    # 0..65533, with neighbours on both sides of 32768 (order and coincidences are unchanged)
+    bigshape = list(L1.shape)
+    rs = np.random.RandomState((case["seed"] + 41) % (2 ** 32))
+    for axis, on in ((0, case.get("spread") in ("rows", "both")), (1, case.get("spread") in ("cols", "both"))):
+        if on:
+            n = L1.shape[axis]
+            special = np.array([0, 32767, 32768, 65533])
+            m = np.unique(np.concatenate([special[:min(n, 4)], rs.randint(0, 65534, n)]))
+            while len(m) < n:
+                m = np.unique(np.concatenate([m, rs.randint(0, 65534, n)]))
+            m = np.sort(rs.permutation(m)[:n]) if len(m) > n else m
+            if n >= 2 and not ((m < 32768).any() and (m >= 32768).any()):
+                m[0], m[-1] = min(m[0], 32767), max(m[-1], 32768)
+                m = np.sort(m)
+            if axis == 0:
+                r1, r2 = m[r1].astype(np.uint16), m[r2].astype(np.uint16)
+            else:
+                c1, c2 = m[c1].astype(np.uint16), m[c2].astype(np.uint16)
+            bigshape[axis] = 65534          # the largest shape a uint16 indexed frame accepts
+    bigshape = tuple(bigshape)
 
     def cmp(name, n, rcl):
         got = collections.Counter()
@@ -334,9 +356,9 @@ def check_ov(case, rec=None):
     else:
         fails.append(exc_failure("overlaps_matrix(realloc)", r))
     # overlaps() on frames
-    f1 = sparseframe.sparse_frame(r1, c1, L1.shape, pixels={"lab": l1.copy()})
+    f1 = sparseframe.sparse_frame(r1, c1, bigshape, pixels={"lab": l1.copy()})
     f1.meta["lab"] = {"nlabel": n1}
-    f2 = sparseframe.sparse_frame(r2, c2, L2.shape, pixels={"lab": l2.copy()})
+    f2 = sparseframe.sparse_frame(r2, c2, bigshape, pixels={"lab": l2.copy()})
     f2.meta["lab"] = {"nlabel": n2}
     ok, ce = guard(sparseframe.overlaps, f1, "lab", f2, "lab")
     if ok:
